@@ -62,8 +62,19 @@ package builder
 //@ loop 0 invariant children-stored: allStored(children)
 //@ inst children-stored: i: i
 
+// C07 (shape): the tree is the balanced layout. A node at depth d > 1 is filled with subtrees of
+// depth d-1 until it has DefaultLinksPerBlock links; it may stay below that width only because the
+// source is exhausted, and (for a width of at least one) it never exceeds it. A result without a link means the source is
+// exhausted.
 //@ func data/builder.fileTreeRecursive
-//@ prop C01 C11
+//@ prop C01 C07 C11
+//@ requires at-most-the-previous-root-is-passed-in: len(children) <= 1
+//@ ensures no-link-means-the-source-is-exhausted: err == nil && result0.link == nil && 2 <= DefaultLinksPerBlock ==> exhausted(src)
+//@ ensures exhaustion-is-permanent: old(exhausted(src)) ==> exhausted(src)
+//@ loop 0 invariant never-more-links-than-the-width: 1 <= DefaultLinksPerBlock ==> len(children) <= DefaultLinksPerBlock
+//@ loop 0 invariant exhaustion-is-permanent-so-far: old(exhausted(src)) ==> exhausted(src)
+//@ at call data/builder.fileTreeRecursive#1 assert subtrees-are-one-level-lower-and-start-empty: callee_depth == depth - 1 && len(callee_children) == 0
+//@ at call data/builder.packFileChildren#1 assert node-is-full-unless-the-source-is-exhausted: 1 <= len(children) && (1 <= DefaultLinksPerBlock ==> len(children) <= DefaultLinksPerBlock) && (len(children) < DefaultLinksPerBlock ==> exhausted(src))
 //@ at return assert leaf-sizes: depth == 1 && err == nil && result0.link != nil ==> result0.byteSize == len(leaf) && result0.storedSize == sz
 //@ at return assert interior-node-sizes: depth != 1 && err == nil ==> result0.byteSize == totalBytes(children) && result0.storedSize == totalStored(children) + sz
 //@ ensures any-write-failure-fails-the-build: (err == nil ==> storeFailed == old(storeFailed)) && (old(storeFailed) ==> storeFailed)
@@ -79,9 +90,11 @@ package builder
 //@ loop 0 invariant no-failure-so-far: storeFailed == old(storeFailed)
 //@ at call data/builder.packFileChildren#1 assert children-stored-before-parent: allStored(children)
 //@ inst children-stored-before-parent: i: i
-//@ assigns stored(result0.link), storeFailed
+//@ assigns stored(result0.link), storeFailed, exhausted(src)
 
 //@ func data/builder.BuildUnixFSFile
+//@ prop C07
+//@ at call data/builder.fileTreeRecursive#1 assert each-round-adds-one-level-on-top-of-the-previous-root: callee_depth == depth && len(callee_children) <= 1
 //@ ensures any-write-failure-fails-the-build: (err == nil ==> storeFailed == old(storeFailed)) && (old(storeFailed) ==> storeFailed)
 //@ ensures error-implies-nil-link: err != nil ==> result0 == nil
 //@ ensures link-implies-stored: err == nil ==> result0 != nil && stored(result0)
